@@ -71,6 +71,12 @@ type DocConfig struct {
 	PlainBodies   bool // stream bodies avoid "N G obj" look-alikes and are kept unfiltered sometimes
 	ScalarTopOnly bool
 	BigGaps       bool // object numbers with gaps of thousands
+	// PadBytes > 0 writes an unfiltered padding stream of that many bytes first, so
+	// that the offsets of the following objects cross a field-width boundary of
+	// the cross-reference data.  WideObjStm makes one WriteCompressed call carry
+	// 255..300 or 600 objects (index field width).
+	PadBytes   int
+	WideObjStm bool
 	// EndstreamBodies makes every stream body a long text with lines that start with "endstream".
 	EndstreamBodies bool
 	// WithMetadata adds an XMP metadata stream to the catalog (needs version >= 1.4);
@@ -447,9 +453,38 @@ func BuildDoc(r *kit.Rand, cfg DocConfig) (*Doc, error) {
 		d.Ops = append(d.Ops, op+"(refused)")
 	}
 
+	if cfg.PadBytes > 0 {
+		ref := alloc()
+		body := make([]byte, cfg.PadBytes)
+		x := uint32(cfg.PadBytes)
+		for i := range body {
+			x = x*1664525 + 1013904223
+			body[i] = "padding 0123456789\n"[x>>27%19]
+		}
+		s, err := w.OpenStream(ref, pdf.Dict{"N": pdf.Integer(-1)})
+		if err != nil {
+			return d, fmt.Errorf("%s: OpenStream(padding): %w", cfg.String(), err)
+		}
+		for rest := body; len(rest) > 0; {
+			k := min(len(rest), 1<<20)
+			if _, err := s.Write(rest[:k]); err != nil {
+				return d, fmt.Errorf("%s: padding Write: %w", cfg.String(), err)
+			}
+			rest = rest[k:]
+		}
+		if err := s.Close(); err != nil {
+			return d, fmt.Errorf("%s: padding Close: %w", cfg.String(), err)
+		}
+		record(&WObj{Ref: ref, Value: pdf.Dict{"N": pdf.Integer(-1)}, IsStream: true, Body: body})
+		d.Ops = append(d.Ops, fmt.Sprintf("Pad(%d)", cfg.PadBytes))
+	}
+	wideDone := !cfg.WideObjStm
 	nops := cfg.MaxOps
 	for i := 0; i < nops; i++ {
 		k := r.Intn(10)
+		if !wideDone && (i == nops-1 || r.Chance(1, 3)) {
+			k = 4
+		}
 		switch {
 		case k == 0: // allocate, never write
 			ref := alloc()
@@ -476,6 +511,10 @@ func BuildDoc(r *kit.Rand, cfg DocConfig) (*Doc, error) {
 
 		case k <= 5 && !cfg.NoObjStm: // WriteCompressed
 			n := 1 + r.Intn(5)
+			if !wideDone {
+				n = kit.Pick(r, []int{254, 255, 256, 257, 258, 300, 600})
+				wideDone = true
+			}
 			refs := make([]pdf.Reference, n)
 			objs := make([]pdf.Object, n)
 			args := make([]shared, n)
